@@ -798,6 +798,29 @@ pub fn run_c20(ctx: &Ctx, rep: &mut Report) {
     }
     rep.tally_n("collections", n as u64);
     c20_builder_reuse(ctx, rep);
+    // One collection whose automata are big in *memory*: about 70 000 trie
+    // states, all written densely with byte classes off (256 transitions each):
+    // more than 2^24 table entries (64 MiB) for the contiguous NFA and the DFA.
+    // Far below the documented limits (2^31 - 1 state identifiers), far above
+    // anything the other shapes reach. Once per run (shard 0; every 4th shard
+    // in the thorough tier with other seeds).
+    if ctx.tier != Tier::Tiny && (ctx.shard == 0 || (ctx.tier == Tier::Thorough && ctx.shard % 4 == 0)) {
+        let mut rng = root.fork(0xB16D);
+        let pats: Vec<Vec<u8>> = (0..2800).map(|_| gen::rand_string(&mut rng, b"abcd", 32)).collect();
+        for imp in [Imp::TopCnfa, Imp::LowCnfa, Imp::LowDfa, Imp::TopDfa] {
+            let cfg = Cfg {
+                imp,
+                kind: Kind::ALL[rng.below(3)],
+                sk: SK::Unanchored,
+                ci: false,
+                pre: false,
+                dense_depth: Some(1_000_000),
+                byte_classes: false,
+            };
+            c20_check_one(rep, &pats, &cfg, "70k dense states");
+            rep.tally("big_dense_builds");
+        }
+    }
 }
 
 /// Builders are values that may be kept and used again: one configured
